@@ -11,7 +11,7 @@ var mapsOnly = instr.Opts{Maps: true}
 var full = instr.Opts{Maps: true, Yields: true, Sync: true, Time: true, Access: true}
 var yieldsAndClock = instr.Opts{Yields: true, Time: true}
 
-var yieldsOnly = instr.Opts{Yields: true}
+var yieldsOnly = instr.Opts{Yields: true, Maps: true} // map order must be seeded too, or the number of yields passed (and so virtual time) varies from process to process
 var mainPkg = instr.Opts{Maps: true, Yields: true, Sync: true, Time: true, Access: true, Elems: true, Main: true, MainPkgName: "idmain"}
 var fullElems = instr.Opts{Maps: true, Yields: true, Sync: true, Time: true, Access: true, Elems: true}
 
@@ -27,6 +27,7 @@ var all = map[string]*runner.Spec{
 			"the solo reference is the same call run alone on the same frozen classifier with the run-to-block schedule and a frozen clock",
 		},
 		QuickRuns: 2400, ThorRuns: 60000, QuickCap: 420, ThorCap: 2400,
+		TestPkgs: []string{"github.com/google/licenseclassifier/v2", "github.com/sergi/go-diff/diffmatchpatch"},
 		Instrument: func(sc *runner.Scratch) error {
 			gd := lite
 			_, err := sc.Instrument(runner.InstrumentPlan{V2: map[string]instr.Opts{"": lite}, GoDiff: &gd})
@@ -43,6 +44,7 @@ var all = map[string]*runner.Spec{
 			"process boundary, os.Exit, log.Fatal and stdout are stubbed in-process at main level",
 		},
 		QuickRuns: 2000, ThorRuns: 80000, QuickCap: 420, ThorCap: 2400,
+		TestPkgs: []string{"github.com/google/licenseclassifier/v2"},
 		Instrument: func(sc *runner.Scratch) error {
 			_, err := sc.Instrument(runner.InstrumentPlan{
 				V2: map[string]instr.Opts{"": yieldsOnly, "tools/identify_license": mainPkg, "tools/identify_license/backend": fullElems, "tools/identify_license/results": fullElems},
@@ -60,6 +62,7 @@ var all = map[string]*runner.Spec{
 			"porcupine verdict Unknown (timeout) is counted as inconclusive, never reported",
 		},
 		QuickRuns: 4000, ThorRuns: 120000, QuickCap: 420, ThorCap: 2400,
+		TestPkgs: []string{"github.com/google/licenseclassifier/stringclassifier/...", "github.com/google/licenseclassifier/serializer"},
 		Instrument: func(sc *runner.Scratch) error {
 			_, err := sc.Instrument(runner.InstrumentPlan{
 				V1: map[string]instr.Opts{"": full, "stringclassifier": full, "stringclassifier/internal/pq": full, "stringclassifier/internal/sets": full,
@@ -78,6 +81,7 @@ var all = map[string]*runner.Spec{
 			"the instrumenter's map-range rewrite preserves semantics (guarded by running the repository's own v2 tests against the instrumented copy in the self-test)",
 		},
 		QuickRuns: 1600, ThorRuns: 40000, QuickCap: 420, ThorCap: 2400,
+		TestPkgs: []string{"github.com/google/licenseclassifier/v2"},
 		Instrument: func(sc *runner.Scratch) error {
 			_, err := sc.Instrument(runner.InstrumentPlan{V2: map[string]instr.Opts{"": mapsOnly}})
 			return err
@@ -94,6 +98,9 @@ var all = map[string]*runner.Spec{
 		QuickRuns: 6000, ThorRuns: 150000, QuickCap: 420, ThorCap: 2400,
 	},
 }
+
+// IDs lists the claimed properties.
+func IDs() []string { return []string{"C04", "C08", "C09", "C14", "C19"} }
 
 // Get returns the spec for a property id (nil if not claimed).
 func Get(id string) *runner.Spec { return all[id] }
